@@ -973,3 +973,65 @@ func decimalText(v ssa.Value) (x ssa.Value, ok bool) {
 	}
 	return nil, false
 }
+
+// pathAvoiding reports whether some path from the start of block `from` (entered from
+// predecessor `pred`, -1 for none) reaches an instruction accepted by target without first
+// executing an instruction accepted by stopInstr and without crossing an edge accepted by
+// stopEdge. Blocks that branch on a boolean merged in them are left in the direction the
+// value arriving from the predecessor decides (when it is a constant).
+func pathAvoiding(g *ssax.Graph, pred, from int, target, stopInstr func(ssa.Instruction) bool, stopEdge func(p, s int) bool) (ssa.Instruction, bool) {
+	type st struct{ pred, blk int }
+	seen := map[st]bool{}
+	work := []st{{pred, from}}
+	for len(work) > 0 {
+		cur := work[0]
+		work = work[1:]
+		if seen[cur] || !g.Reach[cur.blk] {
+			continue
+		}
+		seen[cur] = true
+		if cur.pred >= 0 && stopEdge != nil && stopEdge(cur.pred, cur.blk) {
+			continue
+		}
+		blk := g.Fn.Blocks[cur.blk]
+		end := len(blk.Instrs)
+		if c := g.Cut[cur.blk]; c >= 0 {
+			end = c + 1
+		}
+		stopped := false
+		for _, ins := range blk.Instrs[:end] {
+			if stopInstr != nil && stopInstr(ins) {
+				stopped = true
+				break
+			}
+			if target(ins) {
+				return ins, true
+			}
+		}
+		if stopped || g.Cut[cur.blk] >= 0 {
+			continue
+		}
+		succs := g.Succs[cur.blk]
+		if ifi, ok := blk.Instrs[len(blk.Instrs)-1].(*ssa.If); ok && len(blk.Succs) == 2 {
+			cond, pos := stripNotB(ifi.Cond, true)
+			if ph, isPhi := cond.(*ssa.Phi); isPhi && ph.Block() == blk {
+				for k, pb := range blk.Preds {
+					if pb.Index != cur.pred {
+						continue
+					}
+					if kb, isK := ssax.ConstBool(ph.Edges[k]); isK {
+						take := blk.Succs[1].Index
+						if kb == pos {
+							take = blk.Succs[0].Index
+						}
+						succs = []int{take}
+					}
+				}
+			}
+		}
+		for _, nx := range succs {
+			work = append(work, st{cur.blk, nx})
+		}
+	}
+	return nil, false
+}
